@@ -10,7 +10,8 @@ from vf.ref.refeval import num_to_col
 
 ID = 'C14'
 LEVEL = 'exploration'
-RULE = ('enumerated: a 2x3 rectangle in all 3^6 patterns of '
+RULE = ('MIN/MAX are also compared EXACTLY (whole neighbours beyond 2^53 planted into the grid; argument order must not matter).  '
+        'enumerated: a 2x3 rectangle in all 3^6 patterns of '
         '{distinct number, blank, non-numeric text} through SUM AVERAGE MIN '
         'MAX COUNT COUNTA (one range argument, and split into two '
         'sub-ranges) and SUMPRODUCT of the rectangle with a numeric twin; '
